@@ -57,18 +57,19 @@ type cfile struct {
 }
 
 type crashFS struct {
-	mu      sync.Mutex
-	files   map[string]*cfile
-	meta    *types.PersistentState
-	stable  map[string][]byte
-	inited  bool
-	acts    []*action // counted and uncounted (scrub) actions, in order
-	faultIn int       // counted actions until one fails; -1 = none
-	opens   int
-	closes  int
-	created map[string]bool // every name ever created in this directory's lifetime
-	idsUsed map[uint64]string
-	dupID   string
+	mu          sync.Mutex
+	files       map[string]*cfile
+	meta        *types.PersistentState
+	stable      map[string][]byte
+	inited      bool
+	acts        []*action // counted and uncounted (scrub) actions, in order
+	faultIn     int       // counted actions until one fails; -1 = none
+	opens       int
+	closes      int
+	created     map[string]bool // every name ever created in this directory's lifetime
+	idsUsed     map[uint64]string
+	dupID       string
+	faultsFired map[string]int
 	// base: the disk right after the last crash; acts are the actions since then,
 	// numbered from baseCount
 	base      *crashFS
@@ -92,6 +93,10 @@ func (c *crashFS) record(a *action) bool {
 	if !a.scrub && c.faultIn == 0 {
 		c.faultIn = -1
 		a.failed = true
+		if c.faultsFired == nil {
+			c.faultsFired = map[string]int{}
+		}
+		c.faultsFired[string(a.kind)]++
 	} else if !a.scrub && c.faultIn > 0 {
 		c.faultIn--
 	}
